@@ -1402,6 +1402,26 @@ class FunctionDefParser(BaseNodeParser):
             deflines.append(self.node.last_token.line.rstrip())
             funcdef = "\n".join(deflines)
 
+        # The code below is for adding back comment lines
+        # after the last statement in the function body such as:
+        # def foo():
+        #     return 0
+        #     # Comment
+        last_line = end_line = self.node.last_token.end[0]
+        while nxtok < len(self.atok.tokens) and (
+                self.atok.tokens[nxtok].type in (
+                    tokenize.COMMENT, tokenize.NL, tokenize.NEWLINE)):
+            if self.atok.tokens[nxtok].type == tokenize.COMMENT:
+                if self.atok.tokens[nxtok].start[1] == 0:
+                    break   # Not in the function body
+                end_line = self.atok.tokens[nxtok].end[0]
+            nxtok += 1
+
+        if end_line > last_line:
+            srclines = self.atok.text.split("\n")
+            funcdef = "\n".join(
+                [funcdef] + srclines[last_line:end_line])
+
         kwargs = {"formula": funcdef}
         return Instruction.from_method(
             obj=self.obj,
